@@ -53,8 +53,9 @@ FRAGS = [
     ("call_null", "deref", "both", "", "$l_{r} += $f_{deref} ( 0 ) ;"),
     ("call_div", "divide", "both", "", "$l_{r} += $f_{divide} ( $p_{x} , 0 ) ;"),
     ("addr_to_int", "", "c", "int $l_{v} ;", "$l_{v} = $p_{p} ;\n$l_{r} += $l_{v} ;"),
-    ("shadow_arg", "", "both", "", "if ( $p_{x} ) {{\n\tint $l_{x} = {K} ;\n\t$l_{r} += $l_{x} ;\n}}"),
-    ("shadow_var", "", "both", "int $l_{v} = {K} ;", "if ( $p_{x} > 1 ) {{\n\tint $l_{v}__in = {K2} ;\n\t$l_{r} += $l_{v}__in ;\n}}\n$l_{r} += $l_{v} ;"),
+    ("shadow_arg", "", "both", "", "if ( $p_{x} ) {{\n\tint $l_{x} = 0 ;\n\t$l_{r} += $l_{x} ;\n}}\n$l_{r} += {K2} / $p_{x} ;"),
+    ("shadow_var", "", "both", "int $l_{v} = {K} ;",
+     "if ( $p_{x} > 1 ) {{\n\tint $l_{v}__in = {K2} ;\n\t$l_{r} += $l_{v}__in ;\n}}\nif ( $l_{v} == {K} ) {{\n\t$l_{r} ++ ;\n}}"),
     ("strcpy_oob", "string", "both", "char $l_{v} [ {N} ] ;", "strcpy ( $l_{v} , \"0123456789abcdef\" ) ;\n$l_{r} += $l_{v} [ 0 ] ;"),
     ("printf_args", "stdio", "both", "", "printf ( \"%s %d\\n\" , $p_{x} ) ;"),
     ("printf_sign", "stdio", "both", "", "printf ( \"%u\\n\" , $p_{x} ) ;"),
